@@ -13,7 +13,7 @@ from concurrent.futures import ThreadPoolExecutor
 import vlib
 from props import hist_lib as HL
 
-QUICK_N = 220
+QUICK_N = 160
 QUICK_OPS = 40
 
 
@@ -39,6 +39,8 @@ def gen_histories(ctx, tool, n, maxops, procs=8):
             ctx.fail("correspondence", "history driver failed", {"log": out[-2000:]})
             continue
         hs += vlib.read_jsonl(p)
+    for h in hs:
+        h.setdefault("steps", [])
     return hs
 
 
@@ -52,7 +54,10 @@ def execute(ctx, tool, inputs, tag="replay"):
     rc, out, dt = vlib.run_tool(tool, [p, "replay", p_in], timeout=3000)
     if rc != 0:
         return None
-    return vlib.read_jsonl(p)
+    hs = vlib.read_jsonl(p)
+    for h in hs:
+        h.setdefault("steps", [])       # a history all of whose ops were skipped
+    return hs
 
 
 def unknown_failures(ctx, h):
@@ -167,7 +172,7 @@ def run(ctx, replay_inputs=None):
             corpus = vlib.read_jsonl(cp)
         if corpus:
             analyse(ctx, tool, execute(ctx, tool, corpus, "corpus") or [])
-        n, maxops = (QUICK_N, QUICK_OPS) if ctx.tier == "quick" else (2400, 60)
+        n, maxops = (QUICK_N, QUICK_OPS) if ctx.tier == "quick" else (1600, 60)
         hs = gen_histories(ctx, tool, n, maxops)
         analyse(ctx, tool, hs)
         for h in hs[3:5]:
